@@ -81,6 +81,8 @@ func (r *runner) noteUnspec(hash, field string, changed bool) {
 }
 
 func run(c *vf.Ctx) {
+	c.FullScope = true // the whole stated space takes well under a minute: both tiers run it
+	c.Set("scope_note", "quick and thorough tiers run the same (full) scope")
 	r := &runner{c: c, g: gen{seed: c.Seed}}
 	c.Set("rule", "A: v1 + v2 (renewal / storage proof / expiration / mixed) transaction templates with every field populated and every slice >= 2 entries; every single-point mutation of a reflection walk "+
 		"(ints +-1, byte arrays & byte strings first/last byte flipped, currencies lo/hi +1, slices drop/dup/swap/element-wise, pointers nil, resolution kind replaced, strings, bools, times) "+
